@@ -18,7 +18,8 @@
 //	       last is emitted, the last becomes the new current request; at the end it is emitted too
 //	batch  the same requests sent concurrently through the real queue + batcher
 //	       (queuebatch.NewQueueBatch, memory queue, wait_for_result = true): Send returning is the
-//	       completion callback of the request as seen from outside
+//	       completion callback of the request as seen from outside; the requests are wrapped (obsReq)
+//	       so that what MergeSplit returns inside the batcher is recorded too ("split" events)
 //
 // Everything observable is recorded (projection of every request handed in, projection and
 // independently measured size of every part handed to the export function, start and end of every
@@ -288,6 +289,80 @@ type result struct {
 
 var errExport = errors.New("export fails")
 
+// obsReq lets the driver see what Request.MergeSplit returns INSIDE the batcher (batch scripts): it wraps a real request,
+// delegates everything to it, and records for every call which request came in (the batcher calls MergeSplit exactly once
+// per consumed request: the order of these records is the order in which the batcher consumed the requests) and the parts
+// that came back -- how many items each holds and the requests whose containers it holds.  A part without any item
+// (container shells only) is otherwise invisible when the batcher keeps it as its current batch.  The batcher only ever
+// sees obsReq values (sizers and encoding unwrap them).
+type obsReq struct {
+	inner exporterhelper.Request
+	o     *observer
+	req   int // the script's request number, 0 for a part returned by MergeSplit
+}
+
+type observer struct {
+	s   *script
+	sg  *signal
+	rec *recorder
+}
+
+func (o *observer) wrap(r exporterhelper.Request, k int) request.Request {
+	return &obsReq{inner: r, o: o, req: k}
+}
+
+func unwrap(r request.Request) exporterhelper.Request {
+	if w, ok := r.(*obsReq); ok {
+		return w.inner
+	}
+	return r
+}
+
+func (r *obsReq) ItemsCount() int { return r.inner.ItemsCount() }
+
+func (r *obsReq) MergeSplit(ctx context.Context, max int, szt request.SizerType, r2 request.Request) ([]request.Request, error) {
+	var in2 request.Request
+	incoming := r.req
+	if r2 != nil {
+		in2 = unwrap(r2)
+		incoming = 0
+		if w, ok := r2.(*obsReq); ok {
+			incoming = w.req
+		}
+	}
+	lst, err := r.inner.MergeSplit(ctx, max, szt, in2)
+	out := make([]request.Request, len(lst))
+	parts := make([]map[string]any, len(lst))
+	for i, p := range lst {
+		out[i] = r.o.wrap(p, 0)
+		n, reqs := -1, []int{}
+		if m, merr := measure(r.o.sg, r.o.s, p); merr == nil {
+			n, reqs = len(m.items), m.reqs
+		}
+		parts[i] = map[string]any{"n": n, "reqs": reqs}
+	}
+	r.o.rec.log(map[string]any{"ev": "split", "req": incoming, "merged": r2 != nil, "parts": parts}, nil)
+	return out, err
+}
+
+type unwrapSizer struct{ inner request.Sizer[request.Request] }
+
+func (u unwrapSizer) Sizeof(r request.Request) int64 { return u.inner.Sizeof(unwrap(r)) }
+
+type unwrapEncoding struct {
+	inner queuebatch.Encoding[request.Request]
+	o     *observer
+}
+
+func (u unwrapEncoding) Marshal(r request.Request) ([]byte, error) { return u.inner.Marshal(unwrap(r)) }
+func (u unwrapEncoding) Unmarshal(b []byte) (request.Request, error) {
+	r, err := u.inner.Unmarshal(b)
+	if err != nil {
+		return nil, err
+	}
+	return u.o.wrap(r, 0), nil
+}
+
 func runSplit(s *script, sg *signal, rec *recorder, res *result) {
 	var reqs []exporterhelper.Request
 	for k := range s.Reqs {
@@ -365,8 +440,13 @@ func runBatch(s *script, sg *signal, rec *recorder, res *result) {
 	for _, k := range s.Fail {
 		fail[k] = true
 	}
+	obs := &observer{s: s, sg: sg, rec: rec}
+	sizers := map[request.SizerType]request.Sizer[request.Request]{}
+	for k, v := range sg.set.Sizers {
+		sizers[k] = unwrapSizer{v}
+	}
 	export := func(_ context.Context, req request.Request) error {
-		m, err := measure(sg, s, req)
+		m, err := measure(sg, s, unwrap(req))
 		if err != nil {
 			m = measured{items: []item{}, reqs: []int{}, size: -1}
 		}
@@ -400,7 +480,7 @@ func runBatch(s *script, sg *signal, rec *recorder, res *result) {
 		return
 	}
 	qb, err := queuebatch.NewQueueBatch(queuebatch.Settings[request.Request]{Signal: sg.sig, ID: component.MustNewID("verif"),
-		Telemetry: componenttest.NewNopTelemetrySettings(), Encoding: sg.set.Encoding, Sizers: sg.set.Sizers}, cfg, export)
+		Telemetry: componenttest.NewNopTelemetrySettings(), Encoding: unwrapEncoding{sg.set.Encoding, obs}, Sizers: sizers}, cfg, export)
 	if err != nil {
 		res.Error = err.Error()
 		return
@@ -423,7 +503,7 @@ func runBatch(s *script, sg *signal, rec *recorder, res *result) {
 				time.Sleep(time.Duration(g) * time.Microsecond)
 			}
 			rec.log(map[string]any{"ev": "consume", "req": k + 1, "items": items}, func() { rec.pool.enter(items) })
-			err := qb.Send(context.Background(), req)
+			err := qb.Send(context.Background(), obs.wrap(req, k+1))
 			cls := "ok"
 			if err != nil {
 				cls = "other:" + err.Error()
